@@ -10,7 +10,7 @@ import fs from "node:fs";
 import path from "node:path";
 import os from "node:os";
 import { pathToFileURL } from "node:url";
-import { genSplitProject, genWatch, genEnumLayer } from "./split.mjs";
+import { genSplitProject, genStarDag, genWatch, genEnumLayer } from "./split.mjs";
 
 // ---------- TsCore -> TypeScript text ----------
 const IDENT = /^[A-Za-z_$][A-Za-z0-9_$]*$/;
@@ -74,7 +74,7 @@ function genObj(rng, d, sc, allowIndex = true) {
 }
 function genTpl(rng) {
   const n = 1 + rng.below(3), items = [];
-  for (let i = 0; i < n; i++) items.push(rng.pick([A("str"), A("num"), A("bool"), [A("lit"), "a"], [A("lit"), "-"], [A("lit"), "x.y"], [A("oneof"), [A("lit"), "p"], [A("lit"), "q"]]]));
+  for (let i = 0; i < n; i++) items.push(rng.pick([A("str"), A("num"), A("bool"), [A("lit"), "a"], [A("lit"), "-"], [A("lit"), "x.y"], [A("oneof"), [A("lit"), "p"], [A("lit"), "q"]], [A("oneof"), [A("lit"), ""], [A("lit"), "-"]]]));
   // adjacent literal quasis are one quasi in source; merge them so the TsCore term is canonical
   const merged = [];
   for (const it of items) { const last = merged[merged.length - 1]; if (head(it) === "lit" && last && head(last) === "lit") last[1] += it[1]; else merged.push(head(it) === "lit" ? [A("lit"), it[1]] : it); }
@@ -479,7 +479,7 @@ export function gen(rng, params, mode) {
     // make every declaration reachable from an export (otherwise nothing has to be imported)
     if (p[1].length) p = [p[0], p[1], [...p[2], ["EX", [A("obj"), p[1].map((d, i) => ["d" + i, A(rng.chance(1, 3) ? "true" : "false"), [A("ref"), d[1], ...d[2].map(() => { const ng = p[1].filter((x) => x[2].length === 0); return ng.length && rng.chance(1, 2) ? [A("ref"), rng.pick(ng)[1]] : A(rng.pick(["string", "number"])); })]]), A("none")]]]];
     const vals = genValues(rng, p, Number(params[0] || 8));
-    const sp = genSplitProject(rng, p);
+    const sp = rng.chance(1, 5) ? genStarDag(rng, p) : genSplitProject(rng, p);
     if (rng.chance(1, 6) && isAtom(sp.expect, "ok")) { // an enum reached through re-export chains (not modelled in Lean: marker `enum`)
       const en = genEnumLayer(rng);
       const addExport = (src, ty) => src.replace(/ \}>\(\);\n$/, `, EN: ${ty} }>();\n`);
